@@ -511,4 +511,10 @@ def consumers(ctx):
     return res
 
 
-RULES = [opd_formula, sphere, pipeline, consumers]
+def no_stale(ctx):
+    from .common import stale_cache
+    return stale_cache(ctx, 'NO-STALE-STATE', ['Wavefront', 'OPD', 'OPDFan', 'ZernikeOPD'],
+                       'the OPD refers to an earlier lens state', min_methods=1)
+
+
+RULES = [no_stale, opd_formula, sphere, pipeline, consumers]
